@@ -409,7 +409,7 @@ def handlePacket (c : Cl) (p : Pkt) : Cl :=
      | none => c)
   | .register tid mid name =>
     let (rc, c) : UInt8 × Cl :=
-      if (c.registered.lookup name).isSome then (Gen.RC_INVALID_TOPIC_ID, c)
+      if (c.registered.lookup name).isSome ∧ c.registered.lookup name ≠ some tid then (Gen.RC_INVALID_TOPIC_ID, c)
       else (Gen.RC_ACCEPTED, { c with registered := (name, tid) :: c.registered })
     c.sendOrFail (.regack tid mid rc)
   | .regack tid mid rc =>
